@@ -357,7 +357,7 @@ def run(ctx: vlib.Ctx):
     hists = [T.gen_history(ctx.rng, ctx.rng.randint(8, nops)) for _ in range(nh)]
     # path REUSE: a node with metadata reappears (move back, a->b->a, copy onto the vacated name,
     # delete + re-create, swaps) at a path where one lived earlier in the same session
-    n_reuse = ctx.budget(12, 60)
+    n_reuse = ctx.budget(10, 60)
     hists += [T.gen_reuse_history(ctx.rng) for _ in range(n_reuse)]
     hists += T.pattern_histories()
     mcases = [["run", env, model_ops(h)] for h in hists]
